@@ -268,12 +268,16 @@ fn run_axis(c: &ACase, lx: &mut Local) {
     // floats: within the summation bound of each other
     let mut df: Vec<f64> = (0..n).map(|i| DATA[(i * 3 + c.fill) % 7] + if c.fill % 2 == 1 { 1e6 } else { 0.0 }).collect();
     let mut wf: Vec<f64> = (0..ll).map(|k| [0.0, 0.25, 1.0, 3.0][(k + c.fill) % 4] + if k == ll - 1 { 0.5 } else { 0.0 }).collect();
+    // fills 7, 8: all weights equal but not 1 (0.5, 2): with ddof != 0 that is NOT the unweighted variance
+    if c.fill == 7 || c.fill == 8 {
+        wf = vec![if c.fill == 7 { 0.5 } else { 2.0 }; ll];
+    }
     // special fills: a negative weight; a non-finite observation sitting on an exactly-zero weight
-    let special = c.fill >= 4;
+    let special = c.fill >= 4 && c.fill <= 6;
     if c.fill == 4 {
         wf[0] = -0.75;
     }
-    if c.fill >= 5 {
+    if c.fill == 5 || c.fill == 6 {
         wf[0] = 0.0;
         for lane in &lanes {
             df[lane[0]] = if c.fill == 5 { f64::INFINITY } else { f64::NAN };
@@ -306,7 +310,7 @@ fn run_axis(c: &ACase, lx: &mut Local) {
         let hwf = Host1::new(&wf, 2, 1, 555.0);
         let (vf, vwf) = (hf.view(), hwf.view());
         let u = f64::EPSILON / 2.0;
-        for ddof in [0.0, 1.0] {
+        for ddof in [0.0, 1.0, 0.5] {
             let rv = guarded(|| vf.weighted_var_axis(Axis(c.axis), &vwf, ddof));
             let rsd = guarded(|| vf.weighted_std_axis(Axis(c.axis), &vwf, ddof));
             let rs = guarded(|| vf.weighted_sum_axis(Axis(c.axis), &vwf));
@@ -340,11 +344,12 @@ fn run_axis(c: &ACase, lx: &mut Local) {
                             lx.check(same(v1, fv[j], bv.abs().max(1e-9)) && same(sd1, fsd[j], 1e-6), "C18/weighted-var-axis-vs-lane", || format!("special weights {:?} (fill {}): weighted_var_axis / weighted_std_axis(ddof {}) lane {} = {:e} / {:e} but the lane routines give {:e} / {:e}: {:?}", wf, c.fill, ddof, j, fv[j], fsd[j], v1, sd1, c));
                             continue;
                         }
-                        lx.within((s1 - fs[j]).abs(), bs, "C18/weighted-sum-axis-vs-lane", || format!("weighted_sum_axis lane {} = {:e} but weighted_sum of the lane = {:e}: {:?}", j, fs[j], s1, c));
-                        lx.within((m1 - fm[j]).abs(), bm, "C18/weighted-mean-axis-vs-lane", || format!("weighted_mean_axis lane {} = {:e} but weighted_mean of the lane = {:e}: {:?}", j, fm[j], m1, c));
-                        lx.within((v1 - fv[j]).abs(), bv, "C18/weighted-var-axis-vs-lane", || format!("weighted_var_axis(ddof {}) lane {} = {:e} but weighted_var of the lane = {:e} (tolerance {:e}): {:?}", ddof, j, fv[j], v1, bv, c));
+                        // (equal results - e.g. both infinite when the total weight equals ddof - need no tolerance)
+                        lx.within(if s1 == fs[j] { 0.0 } else { (s1 - fs[j]).abs() }, bs, "C18/weighted-sum-axis-vs-lane", || format!("weighted_sum_axis lane {} = {:e} but weighted_sum of the lane = {:e}: {:?}", j, fs[j], s1, c));
+                        lx.within(if m1 == fm[j] { 0.0 } else { (m1 - fm[j]).abs() }, bm, "C18/weighted-mean-axis-vs-lane", || format!("weighted_mean_axis lane {} = {:e} but weighted_mean of the lane = {:e}: {:?}", j, fm[j], m1, c));
+                        lx.within(if v1 == fv[j] { 0.0 } else { (v1 - fv[j]).abs() }, bv, "C18/weighted-var-axis-vs-lane", || format!("weighted_var_axis(ddof {}) lane {} = {:e} but weighted_var of the lane = {:e} (tolerance {:e}): {:?}", ddof, j, fv[j], v1, bv, c));
                         let bsd = if v1 > 0.0 { bv / v1.sqrt() + 4.0 * u * v1.sqrt() } else { bv.sqrt() };
-                        lx.check((sd1 - fsd[j]).abs() <= bsd || (sd1.is_nan() && fsd[j].is_nan()), "C18/weighted-std-axis-vs-lane", || format!("weighted_std_axis(ddof {}) lane {} = {:e} but weighted_std of the lane = {:e}: {:?}", ddof, j, fsd[j], sd1, c));
+                        lx.check(sd1 == fsd[j] || (sd1 - fsd[j]).abs() <= bsd || (sd1.is_nan() && fsd[j].is_nan()), "C18/weighted-std-axis-vs-lane", || format!("weighted_std_axis(ddof {}) lane {} = {:e} but weighted_std of the lane = {:e}: {:?}", ddof, j, fsd[j], sd1, c));
                         let bit_equal = s1.to_bits() == fs[j].to_bits() && m1.to_bits() == fm[j].to_bits() && v1.to_bits() == fv[j].to_bits() && sd1.to_bits() == fsd[j].to_bits();
                         lx.count(if bit_equal { "float_axis_results_bit_equal_to_lane_routine" } else { "float_axis_results_not_bit_equal_to_lane_routine" }, 1);
                         obs.push(fv[j].to_bits());
@@ -556,11 +561,12 @@ fn main() {
         },
     );
     let mut acases: Vec<ACase> = Vec::new();
-    for shape in [vec![2usize, 3], vec![3, 2], vec![3, 2, 2], vec![2, 2, 3]] {
+    for shape in [vec![2usize, 3], vec![3, 2], vec![3, 2, 2], vec![2, 2, 3], vec![2, 2, 2, 2], vec![2, 1, 2, 2, 2]] {
         let d = shape.len();
         for axis in 0..d {
-            for l in all_layouts(d, &[1, 2, -1, -2]) {
-                for fill in 0..(if thorough { 10 } else { 7 }) {
+            let layouts = if d <= 3 { all_layouts(d, &[1, 2, -1, -2]) } else { nsmc::layouts::covering_layouts(d, &[1, 2, -1, -2]) };
+            for l in layouts {
+                for fill in 0..(if thorough { 12 } else { 9 }) {
                     acases.push(ACase { shape: shape.clone(), axis, layout: l.clone(), fill });
                 }
             }
@@ -568,7 +574,7 @@ fn main() {
     }
     rep.run_sub(
         "axis-forms-vs-lane-routine",
-        "shapes (2,3), (3,2), (3,2,2), (2,2,3) x every axis x all layouts x fills: weighted_sum_axis / weighted_mean_axis (i64: exact equality; f64: within twice the summation bound) and weighted_var_axis / weighted_std_axis (ddof 0, 1) vs the whole-array routine applied to each lane; special fills: a negative weight, +inf / NaN observations on an exactly-zero weight",
+        "shapes (2,3), (3,2), (3,2,2), (2,2,3), (2,2,2,2), (2,1,2,2,2) x every axis x all layouts (4-D, 5-D: covering subset) x fills: weighted_sum_axis / weighted_mean_axis (i64: exact equality; f64: within twice the summation bound) and weighted_var_axis / weighted_std_axis (ddof 0, 0.5, 1) vs the whole-array routine applied to each lane; fills with all weights equal to 0.5 / 2; special fills: a negative weight, +inf / NaN observations on an exactly-zero weight",
         acases.into_iter(),
         |c, lx| {
             lx.nontrivial(true);
